@@ -402,10 +402,11 @@ class Main(pipeline.Stream):
                 elif o[0] == "leave":
                     ops.append("(OLeave %s)" % ("Normal" if o[1] == "normal" else "Exceptional"))
                 else:
-                    # the body is an input of the model (its length decides Content-Length): the one actually sent
+                    # the body is an input of the model, which only uses its byte length (Content-Length):
+                    # a filler of the same number of bytes as the body actually sent keeps the case files small
                     body = bodies[bi] if bi < len(bodies) else b""
                     bi += 1
-                    ops.append("(ORequest %s)" % G.g_str(body))
+                    ops.append("(ORequest %s)" % G.g_str(b"x" * len(body)))
             evs = []
             for e in obs:
                 if e[0] == "lines":
